@@ -8,6 +8,7 @@ import Driver.Route
 import Driver.Producer
 import Driver.EsSink
 import Driver.RateLimit
+import Driver.Flow
 /-!
 fbdriver: reads `<id>\t<input>\t<impl observation>` lines on stdin, runs the model of the chosen
 component on `<input>` and prints one verdict line per case:
@@ -31,6 +32,12 @@ def dispatch (comp : String) : Option (String → String → Verdict) :=
   | "producer" => some Producer.check
   | "essink" => some EsSink.check
   | "ratelimit" => some Limiter.check
+  | "flow-C01" => some (ExecTrace.check "C01")
+  | "flow-C02" => some (ExecTrace.check "C02")
+  | "flow-C03" => some (ExecTrace.check "C03")
+  | "flow-C04" => some (ExecTrace.check "C04")
+  | "flow-C05" => some (ExecTrace.check "C05")
+  | "flow-C16" => some (ExecTrace.check "C16")
   | _ => none
 
 partial def loop (h : IO.FS.Stream) (out : IO.FS.Stream) (f : String → String → Verdict) : IO Unit := do
@@ -43,7 +50,7 @@ partial def loop (h : IO.FS.Stream) (out : IO.FS.Stream) (f : String → String 
     match line.splitOn "\t" with
     | [id, input, impl] =>
       let v := f input impl
-      let diff := v.model != impl
+      let diff := v.model != (v.implView.getD impl)
       let st := match diff, v.spec with
         | false, none => "OK"
         | true, none => "DIFF"
